@@ -12,7 +12,7 @@ RULE = ("(a) pass: random programs (anonymous and native gate sets) with subcirc
         "non-trivial = program contains a subcircuit block; distinct = S-expression + mode")
 ASSUMPTIONS = ["reference expansion in vf/meaning.py", "harness native gate set (vf/gateset.py)"]
 TIERS = {"quick": {"shards": 8, "budget_s": 45}, "thorough": {"shards": 16, "budget_s": 300}}
-REQUIRE = {"native:partial": 100, "calls-after-earlier-call-on-same-object": 500, "sub-in-macro": 20, "sub-in-loop": 20, "mode:pass": 200, "mode:exec": 100, "native-bounding-gates": 50,
+REQUIRE = {"route:build": 500, "native:partial": 100, "calls-after-earlier-call-on-same-object": 500, "sub-in-macro": 20, "sub-in-loop": 20, "mode:pass": 200, "mode:exec": 100, "native-bounding-gates": 50,
            "caller-bounding-gates": 20, "exec-readouts-compared": 100}
 
 NATIVE = None
@@ -95,7 +95,12 @@ def judge_pass(case):
         gates = {k: v for k, v in native().items() if k not in ("prepare_all", "measure_all", "I_prepare_all", "I_measure_all")}
     elif use_native:
         gates = native()
-    o = lib.outcome(lib.parse, sx.to_text(prog), gates)
+    if case.get("route") == "build":
+        # S-expression route; a loop whose only statement is a subcircuit block gets that block as its body directly
+        # (the builder accepts this shape, the text grammar has no spelling for it)
+        o = lib.outcome(lib.build, loop_body_is_subcircuit(prog), gates)
+    else:
+        o = lib.outcome(lib.parse, sx.to_text(prog), gates)
     if o[0] != "ok":
         return "skipped:input-rejected:" + o[1], []
     c = o[1]
@@ -187,6 +192,14 @@ def judge_pass(case):
     except M.MeaningError as ex:
         fails.append(("result-has-no-meaning:" + ex.kind, {"error": str(ex)}))
     return "ok", fails
+
+
+def loop_body_is_subcircuit(s):
+    if not isinstance(s, tuple):
+        return s
+    if s[0] == "loop" and s[2][0] == "sequential_block" and len(s[2]) == 2 and s[2][1][0] == "subcircuit_block":
+        return ("loop", s[1], loop_body_is_subcircuit(s[2][1]))
+    return tuple(loop_body_is_subcircuit(x) for x in s)
 
 
 def _rename(t, m):
@@ -363,6 +376,14 @@ def shard(ctx):
                 case["prog"], case["native"] = folded, "partial"
                 case["caller"] = rng.choice([None, "defs", "names-new"])
                 rec.count("native:partial")
+        if case["mode"] == "pass" and rng.random() < 0.3:
+            case["route"] = "build"
+            if rng.random() < 0.5:
+                # make sure the shape occurs: a loop around a lone (possibly empty) subcircuit block
+                extra = ("loop", rng.choice([0, 1, 2, 3]), ("sequential_block", ("subcircuit_block", rng.choice(["", 2])) + (
+                    () if rng.random() < 0.5 else (("gate", "prepare_all"),)[:0])))
+                case["prog"] = case["prog"] + (extra,)
+            rec.count("route:build")
         if case["mode"] == "pass" and rng.random() < 0.3:
             case["prior"] = True
             rec.count("calls-after-earlier-call-on-same-object")
